@@ -281,7 +281,8 @@ pub fn family(name: &str, tier: Tier) -> Vec<Case> {
                 tcp_bytes(&mut out, 1000, 1000, 100, Order::Seq, UNBOUNDED, false, 2, 64, 64);
             }
             // ---- opt-in probes (see notes/wK.md)
-            if tcp_extra("slow") {
+            // part of every run: the KNOWN C20 finding "blocked FIN record dropped after 1 s" (known_findings.json)
+            {
                 // A reader that pauses 2 s before every read while the connection's buffer is full: the
                 // client's shutdown() finds room for only 7 of the 49 bytes of its FIN record, the rest is
                 // handed to a background task that gives up after 1 s (stream/runtime/*.rs
